@@ -43,7 +43,7 @@ def reference_width(G, node_mode, ignored, starts, ends):
 @st.composite
 def strategy_(draw, tier):
     big = tier == "thorough"
-    case = draw(gen.model_cases(classes=COVERS, max_nodes=7 if big else 5, p_opts=0, p_constr=5, p_ignore=3, p_se=4, p_node=3))
+    case = draw(gen.model_cases(classes=COVERS, max_nodes=7 if big else 5, p_opts=0, p_constr=3, p_ignore=3, p_se=4, p_node=3, p_len=2))
     if case["cls"] not in MIN_CLASSES:
         G = graph_from_json(case["graph"])
         kw = case["kw"]
